@@ -255,3 +255,24 @@ def standin_filtersearch(prop, tier, seed, scratch, root):
                               'rendered': json.dumps(j)[:3000], 'input': {'tree': j.get('tree'), 'seed': j.get('seed'), 'case': j.get('case')}, 'replayed': rr, 'replay_bin': 'c11_filter',
                               'replay_args': ['search', str(1 + max(seed, 0)), str(n)]})
     return row
+
+
+def standin_tagtable(prop, tier, seed, scratch, root):
+    """exhaustive check of the finite tag / subsystem tables: ==, cmp, hash, HashSet/HashMap behaviour, parsing in every letter case"""
+    import replay as RP, json
+    rr = RP.run_bin('c20_tags', scratch, [], timeout=300)
+    row = {'function': 'Tag::{as_str via Argument::render, try_from, eq, cmp, partial_cmp, hash}, Subsystem::{as_str, eq, hash} on the finite name tables',
+           'engine': 'native exhaustive run over all named variants x catch-all spellings (replay/src/bin/c20_tags.rs); name tables written from MPD tag_item_names / idle_names',
+           'label': 'bounded', 'bound': 'all 31 named tags x {exact, lower, upper} catch-alls + 5 unknown names, all pairs; 6 invalid strings; 14 subsystems x catch-alls, all pairs; std DefaultHasher, HashSet, HashMap', 'violations': []}
+    if not rr.get('ran'):
+        row['undecided'] = rr.get('reason', 'did not run'); return row
+    if not rr['fails']:
+        try: row['cases'] = json.loads(rr['output'].strip().split('\n')[-1]).get('cases', 0)
+        except Exception: row['cases'] = 0
+        row['result'] = 'agree'; row['distinct_nontrivial'] = row['cases']; row['exhaustive'] = True
+        return row
+    rr.pop('full_output', None)
+    row['result'] = 'DEVIATION'
+    row['violations'].append({'props': ['C20'], 'ob': 'C20.table.exhaustive', 'fn': 'Tag / Subsystem', 'message': rr.get('output', '')[-500:], 'where': 'mpd_client/src/tag.rs', 'rendered': rr.get('output', ''),
+                              'input': {'see': 'output'}, 'replayed': rr, 'replay_bin': 'c20_tags', 'replay_args': []})
+    return row
